@@ -286,6 +286,7 @@ func exec1(rec any) *core.Outcome {
 				}
 				out.ProbeN("lazy_load_fired", b.res.C.LazyFired)
 				out.ProbeN("on_demand_declarations", b.res.C.OnDemand)
+				out.ProbeN("overload_family_calls", b.res.C.Overloaded)
 			}
 			continue
 		}
